@@ -487,8 +487,10 @@ func (tree *Tree) recursiveRemove(node *Node, key []byte) (newSelf *Node, newKey
 		if bytes.Equal(key, node.key) {
 			// we don't create an orphan here because the leaf node is removed
 			tree.addDelete(node)
+			// returnNode clears the node: take the value first
+			value := node.value
 			tree.returnNode(node)
-			return nil, nil, node.value, true, nil
+			return nil, nil, value, true, nil
 		}
 		return node, nil, nil, false, nil
 	}
